@@ -305,6 +305,10 @@ impl<'a> Ctx<'a> {
             return;
         }
         let Some(exp) = exp else { return };
+        if exp == Out::Panic {
+            // zero divisor / non-finite float: the panic is permitted ("panics only for ..."), not required
+            return;
+        }
         self.rep.judged += 1;
         self.tally.judged[group] += 1;
         if got != exp {
@@ -341,7 +345,10 @@ impl<'a> Ctx<'a> {
             if let Out::V(v) = got {
                 succ.push(v);
             }
-            self.judge(2, || format!("wrap {} un {} {:#x}", name, UN[op], a), got, model_un(l, op, a), None, UN[op]);
+            // judged: the operations C18 lists; bit counts, is_*, next_power_of_two are executed (successor states,
+            // C11 digests) but not judged
+            let listed = !matches!(UN[op], "count_ones" | "count_zeros" | "leading_zeros" | "trailing_zeros" | "is_positive" | "is_negative" | "next_power_of_two" | "is_power_of_two");
+            self.judge(2, || format!("wrap {} un {} {:#x}", name, UN[op], a), got, if listed { model_un(l, op, a) } else { None }, None, UN[op]);
         }
         for dir in 0..2 {
             for n in [0u32, 1, l.w - 1, l.w / 2] {
@@ -393,7 +400,9 @@ impl<'a> Ctx<'a> {
         for dst in 0..NUMS.len() {
             if let Some(exp) = model_to_num(l, dst, a) {
                 let got = subject(|| (e.to_num)(dst, a)).unwrap_or(Out::Panic);
-                self.judge(7, || format!("wrap {} to_num {} {:#x}", name, NUMS[dst], a), got, Some(exp), None, "to_num");
+                // to_num is not among the operations C18 lists: executed and digested, not judged
+                let _ = exp;
+                self.judge(7, || format!("wrap {} to_num {} {:#x}", name, NUMS[dst], a), got, None, None, "to_num");
             }
         }
     }
@@ -451,6 +460,9 @@ fn explore_layout(e: &Entry, tier: Tier, c11: bool, dump: bool) -> (Report, u64)
                             if in_kf {
                                 ok = false; // known finding on this step: the chains legitimately diverge
                                 break;
+                            }
+                            if exp == Out::Panic {
+                                break; // zero divisor: nothing required
                             }
                             if got != exp {
                                 if !c11 {
